@@ -70,8 +70,10 @@ def backend(asan=False):
 def _prune(kind, keep):
     ds = sorted(glob.glob(os.path.join(env.BUILD, 'backend-%s-*' % kind)),
                 key=os.path.getmtime)
+    now = time.time()
     for d in ds[:-3]:
-        if d != keep:
+        # old enough that no running check can still be spawning workers on it
+        if d != keep and now - os.path.getmtime(d) > 6 * 3600:
             shutil.rmtree(d, ignore_errors=True)
 
 
